@@ -464,6 +464,7 @@ pub fn byte_kinds() -> Vec<(u32, K)> {
         (1, K::Get),
         (2, K::ApplyPermPublic),
         (1, K::SortSmall),
+        (2, K::SortWide),
         (2, K::MkVector),
         (1, K::MkTuple),
         (1, K::Repeat),
